@@ -11,6 +11,11 @@ claimed = {
    text="Generated IOS pairs (block structure, remarks, log variants, IOS-XE numbers, shared ACLs, VRFs, crypto filter ACLs, routes) are run through the real compare; the script is executed on the IOS model and every managed interface must filter as the target (runs of same-action entries compared as multisets), routes of managed VRFs equal, second compare empty, 'unchanged' only if equivalent. Known root causes F18/F20 are set aside by signature.",
    note="Trusted: harness IOS model (harness/iosm), calibrated on the repository's expected outputs (TestCorpusIOS).",
    ref="DESIGN.md §3 C02"),
+ "C13": dict(
+   level="exploration", technique="model-based property testing (rapid): generated histories of policy changes, approves, compares, drift, bzip2, removal and status damage; real missing-approve binary compared after every action with a reference model of the latest conclusive observation",
+   text="Histories over 1-3 devices are executed against the real status package (SetApprove/SetCompare under a TEST_TIME clock) and the real missing-approve binary; after every action the set of listed devices must satisfy the must-list and must-omit clauses of the property computed by an independent reference model. Known root cause F4/F4b (two-slot status memory) is set aside by signature.",
+   note="Trusted: the reference model of observations in harness/c13/oracle.go (written from the property text); approve/compare results are dictated by the model device, the do-approve front-end derivation of FAILED/DIFF is covered by C09, not here.",
+   ref="DESIGN.md §3 C13"),
  "C19": dict(
    level="fault_enumeration", technique="property-based testing (rapid) over histories of commits/runs/kills around the unmodified newpolicy.sh plus enumeration of every kill position (DEBUG-trap injection via BASH_ENV)",
    text="Histories of good/bad commits, undisturbed runs, runs killed at the k-th simple command, simultaneous invocations and manual removal of 'current' are executed against the unmodified bin/newpolicy.sh with a local bare repository and stub compiler; after every action the link/number/compile invariants are checked and a final undisturbed run must promote the newest compiling revision. Thorough enumerates every kill position of a run. Known root cause F9/F9b (stale next/) is set aside by signature.",
